@@ -183,6 +183,30 @@ Definition removeable (m : mode) (filename_given : bool) : bool :=
   | MOverwrite => true
   end.
 
+(* the file object after it has been created / opened: close() and remove() in any order and number.
+   remove() closes the handle first, then deletes the file if the object is entitled to (else it raises FileExistsError);
+   the entitlement is fixed at construction and does not depend on whether the handle is still open.
+   [late_check = true] is a variant in which the entitlement is looked at only while the handle is open. *)
+Record fobj := { o_mode : mode; o_given : bool; o_open : bool; o_there : bool }.
+Inductive fop := FClose | FRemove.
+Definition fo_step (late_check : bool) (o : fobj) (op : fop) : fobj * bool :=
+  match op with
+  | FClose => ({| o_mode := o_mode o; o_given := o_given o; o_open := false; o_there := o_there o |}, false)
+  | FRemove =>
+    let checked := if late_check then o_open o else true in
+    if checked && negb (removeable (o_mode o) (o_given o))
+    then ({| o_mode := o_mode o; o_given := o_given o; o_open := false; o_there := o_there o |}, true)
+    else ({| o_mode := o_mode o; o_given := o_given o; o_open := false; o_there := false |}, false)
+  end.
+(* the refusals and the existence of the file after every operation *)
+Fixpoint fo_run (late_check : bool) (o : fobj) (ops : list fop) : list (bool * bool) :=
+  match ops with
+  | [] => []
+  | op :: t => let '(o', refused) := fo_step late_check o op in (refused, o_there o') :: fo_run late_check o' t
+  end.
+Fixpoint fo_final (late_check : bool) (o : fobj) (ops : list fop) : fobj :=
+  match ops with [] => o | op :: t => fo_final late_check (fst (fo_step late_check o op)) t end.
+
 (* pt_tempo_compute / PtTempo(process_tensor_file=<name>, overwrite=..., unique=...): the mode the file is created in
    depends on the overwrite flag only *)
 Definition api_mode (unique overwrite : bool) : mode := if overwrite then MOverwrite else MWrite.
